@@ -23,7 +23,7 @@ RULE = ('molecules inside the format limits: corpus (raw, normalised, decorated,
         'mod 8 with every order sequence phase, H 0-6/unknown, charges, every element with each tabulated isotope, both stereo kinds, cis/trans block sizes), '
         'reactions with 0-255 molecules per role incl. every role empty and 7-15 coordinate atoms in every position of every role, and the published packs of pach/SI.zip; oracle: '
         'field-by-field identity by atom number and neighbour order, own encoder/decoder of the published layout compared bit '
-        'for bit, pack_len vs true counts, pyxsan shadow-memory events; non-trivial = >= 2 atoms with a bond and at least one '
+        'for bit, every pack (and every reaction pack) transcribed to the earlier version-0 layout by an own transcoder decodes to the same object and lengths, pack_len vs true counts, pyxsan shadow-memory events; non-trivial = >= 2 atoms with a bond and at least one '
         'of stereo/charge/isotope/H-unknown/number > 255, distinct by pack bytes')
 ASSUMPTIONS = ['CachedMethods compatibility shim',
                'pack/unpack are the .pyx sources executed by pyxsan (source semantics, not a compiled binary)',
@@ -32,11 +32,12 @@ CONFIG = {
     'quick': {'shards': 16, 'budget_s': 300, 'n_corpus': 900, 'n_si': 1200, 'n_boundary': 2, 'n_rx': 100, 'big': False,
               'floors': {'evaluations': 1200, 'distinct_nontrivial': 400, 'roundtrips': 900, 'bytes.compared-with-reference': 750,
                          'si.packs': 350, 'reactions.roundtrips': 20, 'reactions.empty-role': 12, 'pyxsan.loads': 1000000,
-                         'reactions.hypercoordinate': 40}},
+                         'reactions.hypercoordinate': 40, 'version-0.decoded': 800, 'version-0.decoded-bonds-multiple-of-5': 80, 'version-0.reactions-decoded': 20}},
     'thorough': {'shards': 16, 'budget_s': 2400, 'n_corpus': 4200, 'n_si': 4200, 'n_boundary': 20, 'n_rx': 400, 'big': True,
                  'floors': {'evaluations': 12000, 'distinct_nontrivial': 6000, 'roundtrips': 10000,
                             'bytes.compared-with-reference': 8000, 'si.packs': 4200, 'reactions.roundtrips': 60,
-                            'reactions.empty-role': 30, 'pyxsan.loads': 10000000, 'reactions.hypercoordinate': 40}},
+                            'reactions.empty-role': 30, 'pyxsan.loads': 10000000, 'reactions.hypercoordinate': 40,
+                            'version-0.decoded': 8000, 'version-0.decoded-bonds-multiple-of-5': 800, 'version-0.reactions-decoded': 60}},
 }
 
 
@@ -159,6 +160,26 @@ def roundtrip(ctx, m, src, exact=True, sample=False):
                 ctx.violation('bytes-differ-from-published-layout/%s' % _region(ref, i),
                               '%s: first difference at byte %d (layout %s vs written %s), lengths %d/%d' % (
                                   src, i, ref[i:i + 4].hex(), data[i:i + 4].hex(), len(ref), len(data)), {'src': src})
+    # the earlier layout keeps decoding: the same molecule transcribed to version 0 by the reference transcoder
+    try:
+        v0 = P.to_version0(data)
+    except Exception:
+        v0 = None
+    if v0 is not None:
+        try:
+            u0 = MoleculeContainer.unpack(v0, compressed=False)
+        except Exception as e:
+            events(ctx, src, 'unpack')
+            ctx.violation('version-0-pack-not-decoded/%s' % type(e).__name__, '%s (%d bonds): %r' % (src, m.bonds_count, e), {'src': src, 'pack': v0.hex()[:400]})
+            return data
+        events(ctx, src, 'unpack')
+        ctx.count('version-0.decoded')
+        if m.bonds_count % 5 == 0:
+            ctx.count('version-0.decoded-bonds-multiple-of-5')
+        if not compare(ctx, m, u0, src + ' [version 0]', exact):
+            return data
+        if MoleculeContainer.pack_len(v0, compressed=False) != len(m):
+            ctx.violation('pack_len-wrong', '%s [version 0]: %d vs %d' % (src, MoleculeContainer.pack_len(v0, compressed=False), len(m)), {'src': src})
     # helpers
     if MoleculeContainer.pack_len(data, compressed=False) != len(m):
         ctx.violation('pack_len-wrong', '%s: %d vs %d' % (src, MoleculeContainer.pack_len(data, compressed=False), len(m)), {'src': src})
@@ -317,6 +338,33 @@ def reaction_roundtrip(ctx, rx, src):
     if tuple(list(x) for x in pl) != want:
         ctx.violation('reaction-pack_len-wrong' + ('/empty-products' if shape[2] == 0 else ''),
                       '%s: %r vs true %r' % (src, pl, want), w)
+    # the same reaction with every molecule transcribed to the earlier (version 0) layout: framing and length helper
+    try:
+        shift, parts = 4, []
+        for _ in range(sum(shape)):
+            ln = P.decode(data[shift:])['length']
+            parts.append(P.to_version0(data[shift:shift + ln]))
+            shift += ln
+        data0 = bytes(data[:4]) + b''.join(parts)
+    except Exception:
+        data0 = None
+    if data0 is not None and sum(shape):
+        try:
+            u0 = ReactionContainer.unpack(data0, compressed=False)
+            pl0 = ReactionContainer.pack_len(data0, compressed=False)
+        except Exception as e:
+            ctx.violation('version-0-pack-not-decoded/reaction/%s' % type(e).__name__, '%s %r: %r' % (src, shape, e), w)
+            R.EV.reset()
+            return
+        events(ctx, src, 'reaction')
+        ctx.count('version-0.reactions-decoded')
+        if (len(u0.reactants), len(u0.reagents), len(u0.products)) != shape or tuple(list(x) for x in pl0) != want:
+            ctx.violation('version-0-reaction-differs', '%s: roles %r -> %r, lengths %r vs %r' % (src, shape, (len(u0.reactants), len(u0.reagents), len(u0.products)), pl0, want), w)
+            return
+        for role in ('reactants', 'reagents', 'products'):
+            for a, b in zip(getattr(rx, role), getattr(u0, role)):
+                if not compare(ctx, a, b, src + ' [version 0]:' + role, False):
+                    return
     try:
         d = chython.unpack(rx.pack())
         if not isinstance(d, ReactionContainer):
